@@ -415,6 +415,7 @@ def spellings(smi, n_random, seed):
         out.append(('renumbered', Chem.MolToSmiles(m2, canonical=False)))
     try:
         out.append(('explicit-H', Chem.MolToSmiles(Chem.AddHs(mol), allHsExplicit=True)))
+        out.append(('bracket-H', Chem.MolToSmiles(mol, allHsExplicit=True)))      # [CH3][CH2][OH]: hydrogen counts inside the brackets
         mh = Chem.AddHs(mol)
         perm = list(range(mh.GetNumAtoms()))
         rnd.shuffle(perm)
